@@ -251,6 +251,9 @@ class World:
         # harness-side client state and the reference model
         self.writers: dict[str, Any] = {}
         self.readers: dict[str, list] = {}
+        self.opened: dict[int, int] = {}      # id(buffer) -> clock value when the handle was opened
+        self.aged_at: int | None = None       # clock value of the (single) 16-minute jump
+        self.allow_age = False
         self.shmid2key: dict[str, str] = {}
         self.incarnation: dict[str, int] = {}
         self.ref_resident: dict[str, int] = {}   # key -> size, per the statement's definition
@@ -268,6 +271,13 @@ class World:
         inc = self.incarnation.get(k, 0)
         return bytes(((ord(k[0]) * 7 + i * 13 + inc * 31) % 251) + 1 for i in range(n))
 
+    def fresh(self, buf) -> bool:
+        """a handle is fresh unless the 16-minute jump happened after it was opened"""
+        return self.aged_at is None or self.opened.get(id(buf), 0) >= self.aged_at
+
+    def fresh_readers(self, k: str) -> list:
+        return [b for b in self.readers.get(k, []) if self.fresh(b)]
+
     def bad(self, mon: str, cause: str, msg: str) -> None:
         self.viol.append((mon, cause, msg))
 
@@ -277,9 +287,9 @@ class World:
             raise HarnessError(f"disk job on unknown segment {shmid}")
         self.job_key.append((kind, k, self.incarnation.get(k, 0)))
         if kind == "out":
-            if self.readers.get(k):
-                self.bad("pageout_during_read", "page-out started while a reader handle is open", f"key {k}")
-            if k in self.writers:
+            if self.fresh_readers(k):
+                self.bad("pageout_during_read", "page-out started while a reader younger than the staleness window holds the dataset", f"key {k}")
+            if k in self.writers and self.fresh(self.writers[k]):
                 self.bad("pageout_during_write", "page-out started while the writer is still open", f"key {k}")
         else:
             # page-in reserves before reading back
@@ -302,7 +312,14 @@ class World:
         for j in range(len(self.pending)):
             for v in self.variants:
                 evs.append(("done", j, v))
+        if self.allow_age and self.aged_at is None and not self.writers and any(self.readers.values()):
+            evs.append(("age",))  # 16 minutes pass: every handle open now is older than the staleness window afterwards
         return evs
+
+    def ev_age(self) -> None:
+        self.clock += int(16 * 60 * 1e9)
+        self.aged_at = self.clock
+        self.last_answer = "aged"
 
     def apply(self, ev: tuple) -> None:
         n = len(self.viol)
@@ -358,6 +375,7 @@ class World:
             self.shmid2key[buf.shm.name] = k
             buf.view()[:size] = self.pattern(k)
             self.writers[k] = buf
+            self.opened[id(buf)] = self.clock
             self.ref_resident[k] = size
             self.ref_known.add(k)
             self.ref_written.discard(k)
@@ -400,6 +418,7 @@ class World:
             if data != self.pattern(k):
                 self.bad("bytes_mismatch", "bytes read differ from the bytes written under that key", f"get {k}: {data.hex()} vs {self.pattern(k).hex()}")
             self.readers.setdefault(k, []).append(buf)
+            self.opened[id(buf)] = self.clock
         elif ans == "error" and k in self.ref_known and k in self.ref_written and k not in self.ref_delayed:
             self.bad("get_error_on_held_key", "get of a finished, held dataset answered with an error", f"get {k}")
 
@@ -520,8 +539,8 @@ class World:
             self.bad("free_space_mismatch", cause, f"reported {reported}, capacity {self.capacity}, resident {self.ref_resident}, store {st}, after {ev}")
         for name in self.ns.unlink_log:
             k = self.shmid2key.get(name)
-            if k is not None and self.readers.get(k):
-                self.bad("unlink_during_read", "segment unlinked while a reader handle is open", f"{k} after {ev}")
+            if k is not None and self.fresh_readers(k):
+                self.bad("unlink_during_read", "segment unlinked while a reader younger than the staleness window holds it", f"{k} after {ev}")
         del self.ns.unlink_log[:]
 
     # ------------------------------------------------------------ canonical state
@@ -543,8 +562,10 @@ class World:
             tuple((jk[0], jk[1], jk[2] == self.incarnation.get(jk[1], 0)) for jk in self.job_key),
             tuple(sorted((self.shmid2key.get(n, n), bytes(b) == self.pattern(self.shmid2key[n]) if n in self.shmid2key else None) for n, b in self.ns.segments.items())),
             tuple(sorted(self.files)),
-            tuple(sorted(self.writers)),
-            tuple(sorted((k, len(v)) for k, v in self.readers.items() if v)),
+            tuple(sorted((k, self.fresh(b)) for k, b in self.writers.items())),
+            tuple(sorted((k, tuple(sorted(self.fresh(b) for b in v))) for k, v in self.readers.items() if v)),
+            self.aged_at is not None,
+            tuple(sorted((k, d.created < (self.aged_at or 0), tuple(sorted(t < (self.aged_at or 0) for t in d.ongoing_reads.values()))) for k, d in m.datasets.items())),
             tuple(sorted(self.ref_resident)), tuple(sorted(self.ref_known)), tuple(sorted(self.ref_ondisk)),
             tuple(sorted(self.ref_written)), tuple(sorted(self.ref_delayed)),
         )
@@ -552,6 +573,7 @@ class World:
 
 def build(cfg: dict, hist: list, real: bool = False) -> World:
     w = World(cfg["capacity"], cfg["sizes"], tuple(cfg.get("variants", ("ok", "fail-early", "fail-late"))), real=real)
+    w.allow_age = bool(cfg.get("age"))
     for ev in hist:
         w.apply(tuple(ev))
     return w
@@ -573,7 +595,7 @@ def liveness_violations(cfg: dict, hist: list) -> list[tuple[str, str, str]]:
     for req in reqs:
         w = build(cfg, hist)
         k = req[1]
-        pinned = sum(w.sizes[j] for j in w.sizes if j != k and (j in w.writers or w.readers.get(j)) and j in w.ref_resident)
+        pinned = sum(w.sizes[j] for j in w.sizes if j != k and (j in w.writers or w.readers.get(j)) and j in w.ref_resident)  # stale handles still pin: conservative
         if w.sizes[k] + pinned > w.capacity:
             continue  # not satisfiable by evicting idle datasets
         granted = False
